@@ -1,1 +1,123 @@
 //! Verification facade (cfg-gated): pruner family.  See `crate::verif`.
+//!
+//! * [`VPrunerCache`] + `find_height_after_window*` — the module-private window-edge search
+//!   of `crate::pruner` with its block-info cache as an opaque handle.
+//! * [`start_pruner`] / [`VPruner`] — the real `Pruner` worker over any `Store` /
+//!   `Blockstore`, talking to a [`VMockDaser`] whose command channel the harness owns.
+
+use std::sync::Arc;
+use std::time::Duration;
+
+use blockstore::Blockstore;
+use tendermint::Time;
+
+use crate::block_ranges::BlockRanges;
+use crate::pruner::{Pruner, PrunerArgs, verif_shim};
+use crate::store::Store;
+use crate::verif::daser::{VEvents, VMockDaser};
+
+/// Opaque handle of the pruner's private `Cache`.
+pub struct VPrunerCache(verif_shim::CacheHandle);
+
+impl VPrunerCache {
+    /// `Cache::default()`.
+    pub fn new() -> VPrunerCache {
+        VPrunerCache(verif_shim::CacheHandle::new())
+    }
+
+    /// Field-by-field copy of the cache.
+    pub fn duplicate(&self) -> VPrunerCache {
+        VPrunerCache(self.0.duplicate())
+    }
+
+    /// Heights whose block info is currently cached (sorted).
+    pub fn cached_heights(&self) -> Vec<u64> {
+        self.0.cached_heights()
+    }
+}
+
+impl Default for VPrunerCache {
+    fn default() -> Self {
+        VPrunerCache::new()
+    }
+}
+
+/// Forwards to the private `pruner::find_height_after_window`.
+pub async fn find_height_after_window<S: Store>(
+    store: &S,
+    stored_headers: &BlockRanges,
+    cutoff: &Time,
+    prev_after_window: Option<u64>,
+    cache: &mut VPrunerCache,
+) -> Result<Option<u64>, String> {
+    verif_shim::find(store, stored_headers, cutoff, prev_after_window, &mut cache.0)
+        .await
+        .map_err(|e| e.to_string())
+}
+
+/// Forwards to the private `pruner::find_height_after_window_fast`.
+pub async fn find_height_after_window_fast<S: Store>(
+    store: &S,
+    stored_headers: &BlockRanges,
+    cutoff: &Time,
+    prev_after_window: Option<u64>,
+    cache: &mut VPrunerCache,
+) -> Result<Option<Option<u64>>, String> {
+    verif_shim::find_fast(store, stored_headers, cutoff, prev_after_window, &mut cache.0)
+        .await
+        .map_err(|e| e.to_string())
+}
+
+/// Forwards to the private `pruner::find_height_after_window_slow`.
+pub async fn find_height_after_window_slow<S: Store>(
+    store: &S,
+    stored_headers: &BlockRanges,
+    cutoff: &Time,
+    cache: &mut VPrunerCache,
+) -> Result<Option<u64>, String> {
+    verif_shim::find_slow(store, stored_headers, cutoff, &mut cache.0)
+        .await
+        .map_err(|e| e.to_string())
+}
+
+/// The real `Pruner`.
+pub struct VPruner {
+    pruner: Pruner,
+}
+
+/// `Pruner::start` with the mocked daser.  Must be called inside a tokio runtime.
+pub fn start_pruner<S, B>(
+    daser: &VMockDaser,
+    store: Arc<S>,
+    blockstore: Arc<B>,
+    events: &VEvents,
+    block_time: Duration,
+    sampling_window: Duration,
+    pruning_window: Duration,
+) -> VPruner
+where
+    S: Store + 'static,
+    B: Blockstore + 'static,
+{
+    let pruner = Pruner::start(PrunerArgs {
+        daser: daser.daser(),
+        store,
+        blockstore,
+        event_pub: events.publisher(),
+        block_time,
+        pruning_window,
+        sampling_window,
+    });
+
+    VPruner { pruner }
+}
+
+impl VPruner {
+    pub fn stop(&self) {
+        self.pruner.stop()
+    }
+
+    pub async fn join(&self) {
+        self.pruner.join().await
+    }
+}
